@@ -82,3 +82,31 @@ Proof.
     cbn [bcmp]. rewrite Z.compare_refl. rewrite <- !app_assoc.
     rewrite (kenc_sd x y _ _ Hk Hx Hy). destruct (kcmp x y); auto.
 Qed.
+
+(* ---- time values: marker, seconds, nanoseconds (both varints): order = lexicographic order on (seconds, nanos) ---- *)
+Lemma encodeTime_shape b s n : i64_range s -> i64_range n ->
+  G_encodeTime b s n = b ++ [G_timeMarker] ++ enc_va s ++ enc_va n.
+Proof.
+  intros Hs Hn. unfold G_encodeTime. cbv zeta.
+  rewrite (G_varint_asc_shape _ s Hs), (G_varint_asc_shape _ n Hn). now rewrite <- !app_assoc.
+Qed.
+
+Definition time_cmp (a b : Z * Z) : comparison :=
+  match Z.compare (fst a) (fst b) with Eq => Z.compare (snd a) (snd b) | c => c end.
+
+Theorem encodeTime_order : forall s1 n1 s2 n2 r t,
+  i64_range s1 -> i64_range n1 -> i64_range s2 -> i64_range n2 ->
+  bcmp (G_encodeTime [] s1 n1 ++ r) (G_encodeTime [] s2 n2 ++ t)
+  = match time_cmp (s1, n1) (s2, n2) with Eq => bcmp r t | c => c end.
+Proof.
+  intros s1 n1 s2 n2 r t H1 H2 H3 H4. rewrite !encodeTime_shape by assumption.
+  cbn [app bcmp]. rewrite Z.compare_refl. rewrite <- !app_assoc.
+  rewrite (enc_va_order s1 s2 _ _ H1 H3). unfold time_cmp. cbn [fst snd].
+  destruct (s1 ?= s2); auto. apply enc_va_order; assumption.
+Qed.
+
+(* booleans and null: one marker byte each; false sorts before true, null before everything typed *)
+Theorem bool_order : forall a b r s,
+  bcmp (G_EncodeBoolAscending [] a ++ r) (G_EncodeBoolAscending [] b ++ s)
+  = match Bool.compare a b with Eq => bcmp r s | c => c end.
+Proof. intros [|] [|] r s; reflexivity. Qed.
